@@ -1452,6 +1452,11 @@ func (t *table) gc(now bigtable.Timestamp, done <-chan struct{}, force bool) {
 
 	i := 0
 	t.rows.Ascend(func(r *btpb.Row) bool {
+		// The iteration may run on a snapshot taken before the lock was last released;
+		// always collect the row as it is stored now.
+		if r = t.rows.Get(r.Key); r == nil {
+			return true
+		}
 		changed := false
 		for _, fam := range r.Families {
 			gcRule := rules[fam.Name]
